@@ -97,9 +97,12 @@ Section Aligned.
   Definition abo (r : rs) : Z := mult_p2 A (r_abegin r).
   Definition aeo (r : rs) : Z := mult_p2 A (r_aend r).
   Definition alen (r : rs) : Z := mult_p2 A (wrap (r_aend r - r_abegin r)).
-  (* the constructor binds AlignedAlloc(alignment) when align_memory (no allocator given), else
-     malloc; posix_memalign fails with EINVAL unless the alignment is a multiple of sizeof(void* ) *)
-  Definition alloc_fails : bool := am && (A <? 8).
+  (* the constructor binds AlignedAlloc(max(alignment, sizeof(void* ))) when align_memory (no allocator
+     given), else malloc.  (Before /repo commit 1dad76b it was AlignedAlloc(alignment), and posix_memalign
+     refused every alignment < sizeof(void* ) with EINVAL: finding F30, fixed.)  posix_memalign accepts
+     every power of two >= sizeof(void* ), so the allocation fails only if that bound were missed. *)
+  Definition alloc_alignment : Z := if A <? 8 then 8 else A.
+  Definition alloc_fails : bool := am && (alloc_alignment <? 8).
 
   Definition fail (en : Z) (bufs : list (list byte)) (f : file) (tr : list event) : opres :=
     mkRes (-1) en bufs [f] tr.
